@@ -44,6 +44,11 @@ CLAIMED = {
    text="145 byte-level entry points (every codec type, raw hash/key/signature parsers, FixedTransaction, ByronAddress, has_transaction_set_tag) x all 65 793 byte strings of length <= 2; ~1 000 valid seed encodings (generators at deviation <= 1) x every truncation point, 20 structural substitutions at every position, inserted break/null/container heads at every gap, every head rewritten to 0/n-1/n+1/n+2, definite->indefinite heads, duplicated tail entries, every length head rewritten to 2^16..2^63; five container kinds nested to depth 256 in 15 recursive/enclosing types; malformed hex for every from_hex, every single-node replacement inside each type's own JSON, malformed Bech32/Base58/decimal text for 21 text parsers, 56 documents for 13 free helpers. Oracle: the call returns (no panic, no abort), and an accepted value re-serialises to exactly one well-formed CBOR item for an independent reader. Choice vectors whose input could make the CBOR reader allocate a declared length are re-executed one by one in child processes so that an abort is attributed to one input.",
    note="Trusted: refcbor. Nesting > 256 out of scope. Two known findings (allocation of declared lengths inside cbor_event; lenient length checks + byte-preserving types re-emit malformed input). Thorough adds all pairs of substitutions on seeds <= 64 bytes.",
    design="DESIGN.md §3 C02"),
+ "C03": dict(
+   technique="bounded-exhaustive enumeration (E1) of generated values validated byte-by-byte by an independent schema-directed validator (hand transcription of the Conway CDDL over an independent CBOR reader)",
+   text="Every value of the C01 space (68 root types, all values within 2/3 deviations, full presence products of body and witness set, PPU corners) and every nested value with a CDDL rule (about 100 rules) is serialised by the library and validated by cddl.rs: map keys, arities, tags (24/30/102/121-127/1280-1400/258/259/2/3), ranges, size bounds, text/bytes kinds, shortest definite head on every item except the two sanctioned forms, tag 258 and no byte-equal duplicates on every set-typed field. Validating constructors (asset name, url, dns, metadatum text/bytes incl. multi-byte text, ipv4/6) are probed at bound-1/bound/bound+1.",
+   note="Trusted base: my transcription of conway.cddl (notes/conway.cddl) and refcbor. Legacy (pre-Conway) shapes the library still offers are validated against their Babbage rules and counted. Builder-produced transactions are validated in builder-output mode by the builder exploration (see C05).",
+   design="DESIGN.md §3 C03"),
 }
 
 PENDING_REASON = "check not built yet in this session (work in progress; see DESIGN.md §8 construction order)"
